@@ -25,10 +25,15 @@ API = {0: ('Scalar.Decode', [0, 1, 32, 33]), 1: ('Scalar.UnmarshalBinary', [0, 3
        31: ('Scalar.Bits', [0]), 32: ('Element.Negate/Double/Identity/Base/IsIdentity', [0]), 33: ('Scalar.Random', [0]),
        34: ('Scalar.Square/Invert/Zero/One/MinusOne/SetUInt64/IsZero/IsOne', [0])}
 SLICE_APIS = {0, 1, 13, 14, 15, 16}
+_LADDER = None
 HASHFN = {0: 'HashToGroup', 1: 'EncodeToGroup', 2: 'HashToScalar'}
 
 
 def jobs_for(tier):
+    global _LADDER
+    if _LADDER is None:
+        from vf.dlog import ladder_orientation
+        _LADDER = ladder_orientation(['root_intrinsics.go', 'root_scalar.go', 'root_element.go'], KS)   # (direction, first, exit value, name) of the ladder's counter
     jobs, meta = [], {}
     layouts = [0, 1, 2]
     for a, (nm, lens) in API.items():
@@ -36,7 +41,7 @@ def jobs_for(tier):
             for lay in (layouts if a in SLICE_APIS else [0]):
                 cfgs = [{}]
                 if a == 26:
-                    cfgs = [{'cut': dict(CUTM, phis={'i': 255})}, {'cut': dict(CUTM, phis={'i': 0})}, {'cut': dict(CUTM, phis={'i': -1})}]
+                    cfgs = [{'cut': dict(CUTM, phis={_LADDER[3]: 255})}, {'cut': dict(CUTM, phis={_LADDER[3]: 0})}, {'cut': dict(CUTM, phis={_LADDER[3]: _LADDER[2]})}]
                 if a == 33:
                     cfgs = [{'cut': CUTR}]
                 for ci, cf in enumerate(cfgs):
